@@ -121,6 +121,9 @@ func c04Days(w *W, y int) {
 			if s.GetWeek() != wd || SolarUtil.GetWeek(y, m, d) != wd {
 				w.Violatef("weekday", key, "weekday of %s: Solar %d SolarUtil %d reference %d", key, s.GetWeek(), SolarUtil.GetWeek(y, m, d), wd)
 			}
+			if s.IsLeapYear() != ref.IsLeap(y) {
+				w.Violatef("lengths", key+"/isleap", "Solar(%s).IsLeapYear()=%v", key, s.IsLeapYear())
+			}
 			if SolarUtil.GetDaysInYear(y, m, d) != ref.DayOfYear(y, m, d) {
 				w.Violatef("ordinal", key, "GetDaysInYear(%s)=%d, reference %d", key, SolarUtil.GetDaysInYear(y, m, d), ref.DayOfYear(y, m, d))
 			}
